@@ -29,8 +29,14 @@ class Replayer:
         implementation's heap as left by its k-th sweep (counted from 0) and replays from there.  max_allocs:
         stop feeding the model after that many allocations (the spec oracles always see the whole trace)."""
         self.trace, self.reqpath, self.exppath = trace, reqpath, exppath
-        self.start_gc, self.max_allocs = start_gc, max_allocs
-        self.emitting = start_gc is None
+        # start_gc may be a list of sweep numbers: several windows, each loaded from the implementation's heap
+        self.from_init = start_gc is None or (isinstance(start_gc, (list, tuple)) and None in start_gc)
+        self.starts = list(start_gc) if isinstance(start_gc, (list, tuple)) else [start_gc]
+        self.starts = sorted(g for g in self.starts if g is not None)
+        self.start_gc = None if self.from_init else (self.starts.pop(0) if self.starts else None)
+        self.max_allocs = max_allocs
+        self.emitting = self.from_init
+        self.windows = 0
         self.emitted_allocs = 0
         self.first_max = 0
         self.loadreq = None
@@ -114,6 +120,8 @@ class Replayer:
                         # then grew before the allocation (start at the next sweep instead)
                         if growth is None and not oom:
                             self.emitting = True
+                            self.windows += 1
+                            self.emitted_allocs = 0
                             req.write(self.loadreq)
                             exp.write("%d ok\n" % ln)
                             pend, seenP = None, False
@@ -124,8 +132,9 @@ class Replayer:
                         self.emitted_allocs += 1
                         if self.emitted_allocs > self.max_allocs:
                             self.emitting = False
-                            self.start_gc = None
-                            self.stopped_at = ln
+                            while self.starts and self.starts[0] < S["gcs"]:
+                                self.starts.pop(0)
+                            self.start_gc = self.starts.pop(0) if self.starts else None
                     if pend is not None:
                         if seenP:
                             S["slow"] += 1
@@ -266,7 +275,9 @@ class Replayer:
         if live_bytes > S["peak_live"]:
             S["peak_live"] = live_bytes
         self.totals.append((sum(self.heaps), live_bytes))
-        if self.start_gc is not None and not self.emitting and S["gcs"] - 1 == self.start_gc:
+        if self.from_init and not self.emitting and self.start_gc is None and self.starts:
+            self.start_gc = self.starts.pop(0)
+        if self.start_gc is not None and not self.emitting and S["gcs"] - 1 >= self.start_gc:
             self.loadreq = "load %d %s\n" % (self.first_max, "|".join(
                 "%d;%s;%s" % (self.heaps[h], ",".join("%d:%d" % (o, s) for o, s in fls[h][2]) or "-",
                               ",".join("%d:%d" % (o, s) for (o, s, m) in objs[h] if m) or "-") for h in range(len(self.heaps))))
@@ -275,12 +286,14 @@ class Replayer:
         return dict(marks=marks, expR="R %d %s F %s" % (mf, sf if sf >= 0 else "*", flx), ln=ln)
 
 
-def compare(exppath, anspath):
+def compare(exppath, anspath, partial=False):
     """first divergence between expected (from the implementation's trace) and the model's answers"""
     n = 0
     with open(exppath) as e, open(anspath) as a:
         for le in e:
             la = a.readline()
+            if partial and not la.endswith("\n"):
+                return None
             n += 1
             ln, _, want = le.rstrip("\n").partition(" ")
             got = la.rstrip("\n")
@@ -316,26 +329,47 @@ def kind_of(div):
 
 
 # ----------------------------------------------------------------------------------------------- workloads
+EMBED = os.path.join(HERE, "..", "harness", "embed_c10.c")
+
+
 def workloads(thorough):
-    """(name, chibi args, scheme args, steady?)  — steady workloads have a bounded live set by construction"""
-    k = 10 if thorough else 1
-    return [
-        ("churn-small", [], ["churn", str(150000 * k), "1"], True),
-        ("mixed-sizes", [], ["mixed", str(40000 * k), "2"], True),
-        ("bursty", [], ["bursty", str(30 * k), "3"], False),
-        ("records-tables", [], ["records", str(40000 * k), "4"], True),
-        ("continuations", [], ["conts", str(3000 * k), "5"], True),
-        ("ports-strings", [], ["ports", str(6000 * k), "6"], True),
-        ("grow-small-heap", ["-h", "256k"], ["growing", str(60000 * k), "7"], False),
-        ("bounded-oom", ["-h", "512k/3m"], ["oom", str(200000), "8"], False),
-        ("big-objects", ["-h", "1m"], ["big", str(300 * k), "9"], False),
-    ]
+    """(name, kind, chibi args / embed args, scheme args, steady?, window)
+    kind "scm": harness/c10_workloads.scm under the scratch chibi-scheme (2.6 M allocations of start-up first);
+    kind "emb": harness/embed_c10.c, a bare context with a small heap, replayed from the heap's creation."""
+    ws = []
+    if not thorough:
+        ws.append(("scheme-all-phases", "scm", [], ["all", "150", "1"], False, ("windows", 7, 12000, 2600000)))
+        emb = [("emb-steady", [65536, 0, 60000, 11, 150, 0], True), ("emb-cycles", [65536, 0, 60000, 12, 400, 1], False),
+               ("emb-oom", [65536, 1500000, 50000, 13, 300, 2], False), ("emb-steady-big", [262144, 0, 60000, 14, 1500, 0], True)]
+    else:
+        for (nm, a, steady) in [("churn-small", ["churn", "1500000", "1"], True), ("mixed-sizes", ["mixed", "400000", "2"], True),
+                                ("bursty", ["bursty", "300", "3"], False), ("records-tables", ["records", "400000", "4"], True),
+                                ("continuations", ["conts", "30000", "5"], True), ("ports-strings", ["ports", "60000", "6"], True),
+                                ("growing", ["growing", "600000", "7"], False), ("big-objects", ["big", "3000", "9"], False),
+                                ("scheme-all-phases", ["all", "10000", "10"], False)]:
+            ws.append((nm, "scm", [], a, steady, ("windows", 10, 20000, 2600000)))
+        ws.append(("small-initial-heap", "scm", ["-h", "256k"], ["mixed", "50000", "21"], False, ("windows", 4, 20000, 0)))
+        ws.append(("bounded-oom", "scm", ["-h", "1m/6m"], ["oom", "400000", "22"], False, ("windows", 4, 20000, 2600000)))
+        emb = []
+        for sd in range(12):
+            emb.append(("emb-steady-%d" % sd, [32768 << (sd % 4), 0, 300000, 100 + sd, 100 + 150 * sd, 0], True))
+            emb.append(("emb-cycles-%d" % sd, [32768 << (sd % 3), 0, 300000, 200 + sd, 200 + 100 * sd, 1], False))
+            emb.append(("emb-oom-%d" % sd, [65536, 800000 + 300000 * sd, 200000, 300 + sd, 300, 2], False))
+    for (nm, a, steady) in emb:
+        ws.append((nm, "emb", [str(x) for x in a], [], steady, ("all",)))
+    return ws
 
 
-def run_workload(d, name, cargs, sargs, outdir, timeout=900):
+def run_workload(d, name, kind, cargs, sargs, outdir, timeout=900):
     trace = os.path.join(outdir, "c10-%s.trace" % name)
     env = B.chibi_env(d, {"CHIBI_VERIF_TRACE": trace, "CHIBI_VERIF_SWEEPLOG": "1", "CHIBI_VERIF_AUDIT": "1"})
-    cmd = [os.path.join(d, "chibi-scheme")] + cargs + [os.path.abspath(WORKLOADS)] + sargs
+    if kind == "emb":
+        exe = os.path.join(d, "embed_c10")
+        if not os.path.exists(exe) or os.path.getmtime(exe) < os.path.getmtime(EMBED):
+            B.cc_embed(d, EMBED, exe)
+        cmd = [exe] + cargs
+    else:
+        cmd = [os.path.join(d, "chibi-scheme")] + cargs + [os.path.abspath(WORKLOADS)] + sargs
     t0 = time.time()
     try:
         r = subprocess.run(cmd, capture_output=True, text=True, timeout=timeout, env=env)
@@ -360,7 +394,7 @@ def prescan(trace):
     return cum, n
 
 
-def check_trace(ctx, exe, w, consts, steady, window=("suffix", 40000)):
+def check_trace(ctx, exe, w, consts, steady, window=("suffix", 40000), model_timeout=600):
     """replay one workload's trace; window = ("prefix", n): from the heap's creation, n allocations;
     ("suffix", n): from the latest sweep that leaves at least n allocations to replay; ("all",)"""
     base = w["trace"][:-6]
@@ -373,13 +407,32 @@ def check_trace(ctx, exe, w, consts, steady, window=("suffix", 40000)):
         if cands:
             start_gc = cands[-1]
         max_allocs = None
+    elif window[0] == "windows":
+        # ("windows", k, m, skip): the prefix from the heap's creation plus k windows of m allocations each, loaded from
+        # the implementation's heap at sweeps spread evenly over the allocations after the first `skip`
+        cum, n = prescan(w["trace"])
+        k, m, skip = window[1], window[2], window[3]
+        start_gc = [None]
+        for j in range(k):
+            target = skip + (n - skip) * j // max(k, 1)
+            cands = [i for i, c in enumerate(cum) if c >= target]
+            if cands and cands[0] not in start_gc:
+                start_gc.append(cands[0])
+        max_allocs = m
     rp = Replayer(w["trace"], base + ".req", base + ".exp", unit=consts["unit"], hdr=consts["hdr"], start_gc=start_gc, max_allocs=max_allocs)
     S = rp.run()
     t0 = time.time()
+    truncated = False
     with open(base + ".req") as fi, open(base + ".ans", "w") as fo:
-        r = subprocess.run([exe], stdin=fi, stdout=fo, stderr=subprocess.PIPE, timeout=3000)
+        try:
+            r = subprocess.run([exe], stdin=fi, stdout=fo, stderr=subprocess.PIPE, timeout=model_timeout)
+        except subprocess.TimeoutExpired:
+            truncated = True
+            r = subprocess.CompletedProcess([exe], 0, b"", b"")
     S["model_secs"] = round(time.time() - t0, 1)
-    div = compare(base + ".exp", base + ".ans") if r.returncode == 0 else dict(event=0, trace_line=0, impl="", model="driver died: %s" % r.stderr[-300:])
+    S["model_truncated"] = truncated
+    S["windows"] = rp.windows + (1 if rp.from_init else 0)
+    div = compare(base + ".exp", base + ".ans", partial=truncated) if r.returncode == 0 else dict(event=0, trace_line=0, impl="", model="driver died: %s" % r.stderr[-300:])
     name = w["name"]
     for (sig, ln, text) in rp.spec[:5]:
         ctx.violation(sig, input="workload %s, trace line %d" % (name, ln), expected="the heap invariant of C10 (spec oracle on the implementation's own trace)",
@@ -436,15 +489,16 @@ def run(ctx):
     for f in os.listdir(outdir):
         os.unlink(os.path.join(outdir, f))
     total = dict(allocs=0, gcs=0, slow=0, grows=0, ooms=0)
-    for (name, cargs, sargs, steady) in workloads(ctx.thorough):
-        w = run_workload(d, name, cargs, sargs, outdir)
+    for (name, kind, cargs, sargs, steady, window) in workloads(ctx.thorough):
+        w = run_workload(d, name, kind, cargs, sargs, outdir)
         if w["rc"] == "TIMEOUT" or not os.path.exists(w["trace"]):
             ctx.broken("workload:" + name, "workload did not finish: rc=%s %s" % (w["rc"], w["err"][-300:]))
             continue
-        expect_oom = name == "bounded-oom"
-        if w["rc"] != 0 and not expect_oom:
+        if w["rc"] != 0 and "oom" not in name:
             ctx.violation("workload-crash:" + name, input=name, expected="exit 0", observed="rc=%s %s" % (w["rc"], w["err"][-400:]), replay=w["replay"])
-        S = check_trace(ctx, exe, w, consts, steady)
+        S = check_trace(ctx, exe, w, consts, steady, window=window, model_timeout=(90 if not ctx.thorough else 600))
+        if S["model_truncated"]:
+            ctx.note("model replay of %s stopped by the time limit; the part replayed agrees" % name)
         for k in total:
             total[k] += S[k]
         ctx.count(S["allocs"] + S["gcs"] + S["grows"], key=None)
@@ -457,7 +511,7 @@ def run(ctx):
         ctx.cov["traces_validated_against_impl"] += 1
         ctx.sample(dict(workload=name, allocations=S["allocs"], collections=S["gcs"], slow_path=S["slow"], growths=S["grows"], oom=S["ooms"],
                         size_classes=S["sizes"], objects_compared=S["objs_checked"], peak_live=S["peak_live"], final_heap=S["final_total"],
-                        bound=S.get("bound"), diverged=S["diverged"], run_s=round(w["secs"], 1), model_s=S["model_secs"]), maxn=20)
+                        bound=S.get("bound"), diverged=S["diverged"], windows=S["windows"], model_truncated=S["model_truncated"], run_s=round(w["secs"], 1), model_s=S["model_secs"]), maxn=20)
         if not os.environ.get("VERIF_KEEP_TRACES"):
             for ext in (".trace", ".req", ".exp", ".ans"):
                 try:
